@@ -58,7 +58,7 @@ CancelCtx(X, o, cause, ow, m) ==
 Lagging(X, t) == {d \in 1..Len(X.objs) : X.objs[d].lag = t}
 NewObj(X, par, hedge) ==
   [X EXCEPT !.objs = Append(@, [par |-> par, can |-> FALSE, cause |-> "-", hedge |-> hedge \/ X.objs[par].hedge, cf |-> TRUE, lag |-> 0, lagm |-> FALSE]),
-            !.last = Append(@, X.last[par])]
+            !.last = Append(@, X.last[par]), !.ast = Append(@, X.ast[par])]
 
 \* execution.IsCanceledWithResult (under the execution mutex)
 CancelResult(X, o) == IF X.cres = NilPR THEN Failure(Err(X, o)) ELSE X.cres
@@ -97,7 +97,8 @@ Snap(X, last) == [att |-> X.att, exe |-> X.exe, ret |-> X.ret, hdg |-> X.hdg, lr
 LabA(ev, S, t, layer, last, extra, o) ==
   LET X == XX(S, t)
       last2 == IF IsNil(last.e) /\ CanceledF(X, o) THEN Pair(last.r, ErrF(X, o)) ELSE last IN
-  [ev |-> ev, x |-> S.th[t].x, L |-> layer] @@ Snap(X, last2) @@ extra
+  \* AttemptStartTime() belongs to the copy: set when the execution starts and by InitializeRetry, inherited by copies
+  [ev |-> ev, x |-> S.th[t].x, L |-> layer] @@ Snap(X, last2) @@ [ast |-> X.ast[o], ael |-> now - X.ast[o]] @@ extra
 \* events built from ExecutionInfo + explicit result/error (done events)
 LabD(ev, S, t, layer, last, extra) ==
   [ev |-> ev, x |-> S.th[t].x, L |-> layer] @@ Snap(XX(S, t), last) @@ extra
@@ -222,7 +223,7 @@ RetrySteps(S, t) ==
     [] T.sub = "init" ->
          \* InitializeRetry (mutex): cancelled => the cancellation result; else count the retry and clear the shared cell
          IF Canceled(X, o) THEN Silent([Ret(S, t, i - 1, CancelResult(X, o)) EXCEPT !.th[t].sub = "-"])
-         ELSE Silent([SetX(S, t, [X EXCEPT !.att = @ + 1, !.ret = @ + 1, !.cres = NilPR]) EXCEPT !.th[t].sub = "onretry"])
+         ELSE Silent([SetX(S, t, [X EXCEPT !.att = @ + 1, !.ret = @ + 1, !.cres = NilPR, !.ast[o] = now]) EXCEPT !.th[t].sub = "onretry"])
     [] T.sub = "onretry" ->
          One([Desc(S, t) EXCEPT !.th[t].sub = "-"], Lab("OnRetry", S, t, i, last, NoX))
 
@@ -452,7 +453,7 @@ Steps(S, t) ==
 FreshExec(e) ==
   [objs |-> <<[par |-> 0, can |-> FALSE, cause |-> "-", hedge |-> FALSE, cf |-> FALSE, lag |-> 0, lagm |-> FALSE],          \* 1: the caller's context
               [par |-> 1, can |-> FALSE, cause |-> "-", hedge |-> FALSE, cf |-> cfg.asyncFix, lag |-> 0, lagm |-> FALSE]>>,   \* 2: async: child context of the result
-   last |-> <<NoLast, NoLast>>, cres |-> NilPR, att |-> 1, ret |-> 0, hdg |-> 0, exe |-> 0, calls |-> 0, t0 |-> now,
+   last |-> <<NoLast, NoLast>>, ast |-> <<now, now>>, cres |-> NilPR, att |-> 1, ret |-> 0, hdg |-> 0, exe |-> 0, calls |-> 0, t0 |-> now,
    rs |-> [j \in 1..N |-> [failed |-> 0, exceeded |-> FALSE]], final |-> NilPR, returned |-> FALSE, async |-> e.async, cancel1 |-> FALSE,
    stored |-> FALSE, doneflag |-> FALSE, closed |-> FALSE, callobj |-> <<>>, spurious |-> 0,
    ck |-> IF "ck" \in DOMAIN e THEN e.ck ELSE "none"]
